@@ -397,14 +397,8 @@ def r08_3(chk, sd, inv):
     chk.ob("R08.3", INV, q, "invariant_P_c is called with (coeffs, l, l1, l2)",
            [x.key() for x in args[1:]] == [v0.key(), v1.key(), v2.key()], found=[str(x) for x in args])
     # triangle test dominates the call
-    tri = False
-    for c, pol in call[0].guards:
-        ca = c.as_atom()
-        if ca and ca[0] == "or" and not pol:
-            ks = {x.key() for x in ca[1]}
-            from ..symex import compare
-            want = {compare("Gt", v1 - v2, v0).key(), compare("Lt", v1 + v2, v0).key()}
-            tri = ks == want
+    from ..symex import compare, guard_holds, negate
+    tri = guard_holds(call[0].guards, negate(compare("Gt", v1 - v2, v0))) and guard_holds(call[0].guards, negate(compare("Lt", v1 + v2, v0)))
     chk.ob("R08.3", INV, q, "the triangle condition |l1-l2| <= l <= l1+l2 guards the evaluation", tri,
            found=[f"{'' if p else 'not '}{c}" for c, p in call[0].guards][:3])
     # parity split
